@@ -141,4 +141,24 @@ def read (d : PdoDev) (idx sub : Nat) : Except Nat Nat :=
     else optRead d.entries[sub - 1]?
   else .error abNoObject
 
+/-! ### a device with several PDOs
+
+A CANopen device has up to 512 RPDOs and 512 TPDOs; each one is a `PdoDev` of its own (its own
+communication record and mapping object, its own validity bit and count), and the parameter
+objects of one PDO are never changed by a write to another.  An SDO access goes to the PDO that
+owns the index; an index no PDO owns does not exist. -/
+
+/-- `idx` is the communication record or the mapping object of this PDO -/
+def PdoDev.owns (d : PdoDev) (idx : Nat) : Bool := idx == d.comIdx || idx == d.mapIdx
+
+def writeMulti : List PdoDev → Nat → Nat → Nat → Nat → List PdoDev × Option Nat
+  | [], _, _, _, _ => ([], some abNoObject)
+  | d :: ds, idx, sub, size, v =>
+    if d.owns idx then ((write d idx sub size v).1 :: ds, (write d idx sub size v).2)
+    else (d :: (writeMulti ds idx sub size v).1, (writeMulti ds idx sub size v).2)
+
+def readMulti : List PdoDev → Nat → Nat → Except Nat Nat
+  | [], _, _ => .error abNoObject
+  | d :: ds, idx, sub => if d.owns idx then read d idx sub else readMulti ds idx sub
+
 end Canopen.Spec.StrictPdo
